@@ -472,6 +472,53 @@ pub fn other_builders() -> Vec<(&'static str, SerBuilder)> {
         })
     }));
 
+    // ---- parameter sets carrying a random number generator
+    v.push(("kmeans-params", |_| {
+        let p = linfa_clustering::KMeans::<f64, L2Dist>::params_with_rng(3, rand_xoshiro::Xoshiro256Plus::seed_from_u64(9)).n_runs(2).max_n_iterations(20).tolerance(1e-5);
+        ser!("kmeans-params", p, eq, |p: &linfa_clustering::KMeansParams<f64, rand_xoshiro::Xoshiro256Plus, L2Dist>| {
+            let d = make_data(21, 80, 2, false);
+            let mut out = vec![("check".to_string(), verdict(p.check_ref()))];
+            let m = p.fit(&DatasetBase::from(d.x.clone())).map_err(es)?;
+            out.push(("refit-centroids".into(), arr2(m.centroids())));
+            Ok(out)
+        })
+    }));
+    v.push(("kmeans-params-invalid", |_| {
+        let p = linfa_clustering::KMeans::<f64, L2Dist>::params_with_rng(0, rand_xoshiro::Xoshiro256Plus::seed_from_u64(9));
+        ser!("kmeans-params-invalid", p, eq, |p: &linfa_clustering::KMeansParams<f64, rand_xoshiro::Xoshiro256Plus, L2Dist>| {
+            Ok(vec![("check".to_string(), verdict(p.check_ref()))])
+        })
+    }));
+    v.push(("gmm-params", |_| {
+        let p = linfa_clustering::GaussianMixtureModel::<f64>::params_with_rng(2, rand_xoshiro::Xoshiro256Plus::seed_from_u64(5)).tolerance(1e-4).reg_covariance(1e-5);
+        ser!("gmm-params", p, eq, |p: &linfa_clustering::GmmParams<f64, rand_xoshiro::Xoshiro256Plus>| {
+            let d = make_data(22, 100, 2, false);
+            let mut out = vec![("check".to_string(), verdict(p.check_ref()))];
+            let m = p.fit(&DatasetBase::from(d.x.clone())).map_err(es)?;
+            out.push(("refit-means".into(), arr2(m.means())));
+            out.push(("refit-weights".into(), arr1(m.weights())));
+            Ok(out)
+        })
+    }));
+    v.push(("ftrl-params", |_| {
+        let p = linfa_ftrl::Ftrl::<f64>::params().alpha(0.05).beta(0.5).l1_ratio(0.1).l2_ratio(0.3);
+        ser!("ftrl-params", p, noeq, |p: &linfa_ftrl::FtrlParams<f64, rand_xoshiro::Xoshiro256Plus>| {
+            let d = make_data(23, 80, 3, false);
+            let mut out = vec![("check".to_string(), verdict(p.check_ref()))];
+            let m = p.fit_with(None, &Dataset::new(d.x.clone(), d.ybin.clone())).map_err(es)?;
+            out.push(("refit-weights".into(), arr1(&m.get_weights())));
+            Ok(out)
+        })
+    }));
+    v.push(("multitask-elasticnet-valid-params", |_| {
+        let p = linfa_elasticnet::MultiTaskElasticNet::<f64>::params().penalty(0.2).l1_ratio(0.4).check().map_err(es)?;
+        ser!("multitask-elasticnet-valid-params", p, eq, |p: &linfa_elasticnet::MultiTaskElasticNetValidParams<f64>| {
+            let d = make_data(24, 50, 3, false);
+            let m = p.fit(&Dataset::new(d.x.clone(), d.yreg2.clone())).map_err(es)?;
+            Ok(vec![("refit-hyperplane".into(), arr2(&m.hyperplane().to_owned())), ("refit-intercept".into(), arr1(&m.intercept().to_owned()))])
+        })
+    }));
+
     // ---- kernels methods, enums, errors
     v.push(("kernel-method-gaussian", |_| {
         ser!("kernel-method-gaussian", linfa_kernel::KernelMethod::Gaussian(2.5f64), eq, |k: &linfa_kernel::KernelMethod<f64>| {
